@@ -631,4 +631,5 @@ def run(ctx):
             after(*mres[k:k + n])
             k += n
     ctx.gen_obligations = ["1 <= Gen.Constants.median_block /\\ 1 <= Gen.Constants.bilateral_block (vm_compute)",
-                           "Gen.Constants.msk_pixel_interval_regularized = 2^11 (vm_compute)"]
+                           "Gen.Constants.msk_pixel_interval_regularized = 2^11 /\\ Gen.Constants.msk_pixel_invalid = bits 0,1,6,7,8,9 "
+                           "(reflexivity)"]
